@@ -78,8 +78,14 @@ StartSlice ==
        ELSE V' = [V EXCEPT !.at = "top"] /\ UNCHANGED <<must, done>>
   /\ pc' = "run" /\ UNCHANGED <<disk, saved>>
 
+\* the guards, named as in Crawler.tla
+CanProcess == V.lcpi < NP /\ Todo # {}
+CanFinishPrefix == V.lcpi < NP /\ Todo = {}
+CanSliceEnd == V.at = "check"
+CanFinishCycle == V.lcpi = NP
+
 ProcessBucket ==
-  /\ pc = "run" /\ V.lcpi < NP
+  /\ pc = "run" /\ CanProcess
   /\ \E b \in Todo :
        /\ \A c \in Todo : b <= c                            \* Head of the sorted Todo
        /\ V' = [V EXCEPT !.lcb = b, !.cidx = V.lcpi + 1, !.cset = Listing, !.at = "check"]
@@ -87,19 +93,19 @@ ProcessBucket ==
   /\ UNCHANGED <<disk, saved, pc, must>>
 
 FinishPrefix ==
-  /\ pc = "run" /\ V.lcpi < NP /\ Todo = {}
+  /\ pc = "run" /\ CanFinishPrefix
   /\ V' = [V EXCEPT !.lcpi = V.lcpi + 1, !.cidx = V.lcpi + 1, !.cset = Listing, !.at = "check"]
   /\ UNCHANGED <<disk, saved, pc, must, done>>
 
 \* TimeSliceExceeded -> start_slice: save_state(), sleep
 SliceEnd ==
-  /\ pc = "run" /\ V.at = "check"
+  /\ pc = "run" /\ CanSliceEnd
   /\ V' = [V EXCEPT !.at = "top"] /\ saved' = Persist(V)
   /\ pc' = "sleep" /\ UNCHANGED <<disk, must, done>>
 
 \* tail of start_current_prefix before its save_state(): finished_cycle(cycle) is called here
 FinishCycle ==
-  /\ pc = "run" /\ V.lcpi = NP
+  /\ pc = "run" /\ CanFinishCycle
   /\ V' = [V EXCEPT !.lcpi = 0, !.lcb = 0, !.lcf = V.cur, !.cur = NoCycle, !.at = "top"]
   /\ pc' = "finishing" /\ UNCHANGED <<disk, saved, must, done>>
 
